@@ -601,3 +601,67 @@ Proof.
     destruct Hx as [Hx|[Hx|[Hx|[]]]]; destruct Hy as [Hy|[Hy|[Hy|[]]]]; subst x y; intro H; try reflexivity; vm_compute in H; discriminate.
 Qed.
 
+
+(* ---------- round 4: the LogQL planners (clickhouse_planner: planner.plan() and every Process method, model/LogqlPlan.v), for ALL requests.
+   model/LogqlVariant.v: two requests are variants when they are the same request up to the content of their string VALUES (stream-selector
+   names and values, string operands of label filters, line-filter texts, json path keys, the expression of `| regexp`, drop labels and
+   values, by/without labels, the unwrapped label) and give the same answers to the planners' few questions about a value (is the regex of
+   a line filter one literal, is a line filter / drop value empty, how many groups does `| regexp` name, is the unwrapped label `_entry`).
+   The relation on trees is "same erasure" (SqlPiecesSel.erase_sel), carried through the WithId closures of the tree by rewriting the closed
+   parts of a closure body: no function extensionality. *)
+From Qryn Require model.LogqlVariant proofs.LogqlEraseProofs model.SqlPiecesCases.
+
+(* every Process method, for every planner object tree, context and planner state (id counter, cached WITHs): variant planner objects give
+   trees with the same erasure, variant states and variant successor objects - or both fail *)
+Theorem logql_process_is_value_independent : forall p p' c st st',
+  LogqlVariant.planner_variant p p' -> LogqlVariant.pst_variant st st' ->
+  LogqlVariant.result_variant (LogqlPlan.process p c st) (LogqlPlan.process p' c st').
+Proof. exact LogqlEraseProofs.process_variant. Qed.
+Print Assumptions logql_process_is_value_independent.
+
+(* planner.plan(): variant requests (log and metric: rate / *_over_time / unwrap, vector aggregations, topk, quantile_over_time, comparisons,
+   the 15-second shortcut) get variant trees of planner objects, or are both refused *)
+Theorem logql_plan_is_value_independent : forall s s' finalize,
+  LogqlVariant.script_variant s s' ->
+  LogqlVariant.opt_planner_variant (LogqlPlan.plan_script s finalize) (LogqlPlan.plan_script s' finalize).
+Proof. exact LogqlEraseProofs.plan_script_variant. Qed.
+Print Assumptions logql_plan_is_value_independent.
+
+(* request -> statements, as the tree-level tie evaluates it (SqlPiecesCases.script_pieces: plan, then run the plan k times as a live tail
+   does): if the statement for one request passes the value-independent check pok, the statement for every variant request passes it too,
+   has the same token skeleton, lexes to one literal token per value, and there are as many values *)
+Theorem logql_requests_differing_only_in_values_have_the_same_structure : forall s s' finalize c k,
+  LogqlVariant.script_variant s s' ->
+  Forall2 LogqlVariant.stmt_variant (SqlPiecesCases.script_pieces s finalize c k) (SqlPiecesCases.script_pieces s' finalize c k).
+Proof. exact LogqlEraseProofs.script_pieces_variant. Qed.
+Print Assumptions logql_requests_differing_only_in_values_have_the_same_structure.
+
+(* hypotheses met by a real pair: {job=~"zqxmark"} |= "zqxmark" | json a="b.c" | a = "zqxmark" | drop x="zqxmark" against the same request
+   with hostile strings; both statements exist, the first passes pok and carries 16 values *)
+Example logql_variant_example :
+  let c := {| LogqlPlan.c_from_ns := 1700000000000000000%Z; LogqlPlan.c_to_ns := 1700003600000000000%Z; LogqlPlan.c_limit := 100%Z;
+              LogqlPlan.c_asc := false; LogqlPlan.c_cluster := false; LogqlPlan.c_type := 1%Z; LogqlPlan.c_finalize := true;
+              LogqlPlan.c_step_ns := 1000000000%Z; LogqlPlan.t_gin := "ts_gin"; LogqlPlan.t_samples := "samples"; LogqlPlan.t_ts := "ts";
+              LogqlPlan.t_ts_dist := "ts_dist"; LogqlPlan.t_m15 := "m15" |} in
+  let mk := fun name v lf path dk dv =>
+    Logql.SLog {| Logql.sel_matchers := [ {| Logql.m_name := name; Logql.m_op := Logql.MRe; Logql.m_val := v |} ];
+                  Logql.sel_pipeline := [ Logql.PLineFilter Logql.LFContains lf None;
+                                          Logql.PParser Logql.PJson [ {| Logql.pp_label := "a"; Logql.pp_val := "b.c"; Logql.pp_path := Some path |} ];
+                                          Logql.PLabelFilter (Logql.LF (Logql.HSimple {| Logql.slf_label := "a"; Logql.slf_fn := Logql.LEq;
+                                                                                       Logql.slf_str := Some v; Logql.slf_num := None |}) None None);
+                                          Logql.PDrop [ (dk, Some dv) ] ] |} in
+  let s := mk "job" "zqxmark" "zqxmark" ["b"; "c"] "x" "zqxmark" in
+  let s' := mk "jo'b" "^(?:api|web' OR '1'='1)$" "\' --" ["b'"; "\"] "x' /*" "') UNION ALL SELECT 1 --" in
+  LogqlVariant.script_variant s s' /\
+  match SqlPiecesCases.script_pieces s true c 1, SqlPiecesCases.script_pieces s' true c 1 with
+  | [Some a], [Some b] => SqlPiecesCases.ps_ok a = true /\ List.length (rvalues (SqlPiecesCases.ps_pieces a)) = 16%nat /\
+                          SqlPiecesCases.ps_flat a <> SqlPiecesCases.ps_flat b
+  | _, _ => False
+  end.
+Proof.
+  split.
+  - cbn. split; [repeat constructor|].
+    constructor; [repeat split|]. constructor; [split; [reflexivity|]; constructor; [vm_compute; reflexivity|constructor]|].
+    constructor; [repeat split|]. constructor; [constructor; [reflexivity|constructor]|constructor].
+  - vm_compute. split; [reflexivity|]. split; [reflexivity|]. discriminate.
+Qed.
